@@ -68,7 +68,9 @@ watchers of different directories and a burst of writes that the sequencer hands
 shared batch in place takes events from the other watchers; C05 `gen_shared_batch`, C06 `shared_batch_case`; V01-A); skipped
 directories up to the whole directory of the prefix (a compaction with nothing left to compact must still write its record; C08;
 V06-B); requests whose caller is gone before the backend sees them (`gone=1`: an already cancelled context; a revision dealt for such
-a request must still be resolved; C04 `gone_case`; V05-A). While reading the scanner for this round one seeder pointed at a genuine defect of the unchanged tree - the guard against
+a request must still be resolved; C04 `gone_case`; V05-A). V02-A (a List fast path for [K, K+one byte) that forgot to look at the byte)
+was caught by C03 and C16 with an input; C10, the property it was written against, now asks List itself for [K, K+c) over a family
+of keys that extend one another (`enclosure_case`) and catches it too. While reading the scanner for this round one seeder pointed at a genuine defect of the unchanged tree - the guard against
 lowering the compaction record held only when the record could be READ - which was reproduced, repaired (539af5f), modelled
 (KB.CompactFault) and proved (KB.Props.C08Fault); its reverse is `fixrevert-539af5f`.
 The table is regenerated from the `result.json` files.
